@@ -93,4 +93,23 @@ inline std::vector<uint8_t> b64_decode(const std::string &s) {   // precondition
     return o;
 }
 
+
+// --- additions for C15 (nothing above is changed) ---------------------------------
+// hex: the decoded length "implied by the input's length": size/2, -1 for an odd length
+inline long hex_implied_size(const std::string &s) { return (s.size() % 2) ? -1 : (long)(s.size() / 2); }
+// why a text is outside the statement's acceptance predicate (classification labels only; the verdict
+// always comes from hex_valid / b64_valid): 0 valid, 1 bad length, 2 '=' somewhere else than the last one or two
+// characters (and no other foreign character), 3 a character outside alphabet+'=' in the final group,
+// 4 such a character in a non-final group
+inline int b64_reject_class(const std::string &s) {
+    if (b64_valid(s)) return 0;
+    if (s.size() % 4) return 1;
+    size_t n = s.size();
+    for (size_t i = 0; i < n; i++) {
+        unsigned char c = (unsigned char)s[i];
+        if (c != '=' && b64_value(c) < 0) return i + 4 >= n ? 3 : 4;
+    }
+    return 2;
+}
+
 }  // namespace ref
